@@ -67,7 +67,7 @@ class PayloadGen:
         if name == "unit":
             return vnull() if r.random() >= p else self.wrong({"null"})
         if name == "String":
-            return vstr(r.choice(["", "a", "hello", "é", "a,b"])) if r.random() >= p else self.wrong({"str"})
+            return vstr(r.choice(["", "a", "hello", "é", "a,b", "x!"])) if r.random() >= p else self.wrong({"str"})
         if name == "char":
             if r.random() >= p: return vstr(r.choice(["a", "é", "z"]))
             return r.choice([vstr(""), vstr("ab"), vstr("abc"), self.wrong({"str"})])
@@ -145,7 +145,7 @@ class PayloadGen:
             present = r.random() < 0.8
             if present:
                 # the plausible keys come first (identifier, camelCase, lowercase, rename); sometimes a near-miss
-                kk = r.choice(keys[:3] + ([f["rename"]] if f["rename"] is not None else [])) if r.random() >= p * 0.5 else r.choice(keys)
+                kk = r.choice(keys[:3] + ([f["rename"]] * 3 if f["rename"] is not None else [keys[0]])) if r.random() >= p * 0.5 else r.choice(keys)
                 val = vnull() if r.random() < 0.08 else self.gen(f["from"]["ty"] if f.get("from") else f["ty"], p, depth + 1)
                 ms.append((kk, val))
         if r.random() < 0.35:
@@ -171,7 +171,8 @@ class PayloadGen:
         if r.random() < p * 0.3: return self.wrong({"map"})
         v = r.choice(d["variants"])
         i = G.unraw(v["ident"])
-        names = [i, camel(i), i.lower()] + ([v["rename"]] if v["rename"] is not None else [])
+        # plausible names of the variant; which one is the effective name is the specification's business
+        names = [i, camel(i), i.lower()] + ([v["rename"]] * 3 if v["rename"] is not None else [i])
         tagv = vstr(r.choice(names)) if r.random() >= p * 0.5 else r.choice([vint(1), vnull(), vstr("nope"), vstr(i.upper()), vseq([])])
         ms = self.fields_members(v["fields"] or [], v["rename_all"], p, depth, d["deny"])
         if r.random() >= p * 0.3:
